@@ -395,7 +395,9 @@ class Zeroconf(QuietLogger):
         updated they must not be multicast any more.
         """
         if new_info is not None:
-            withdrawn = withdrawn - self._async_service_records(new_info)
+            # a record that is kept, but with another TTL, is replaced as well
+            kept = {record: record.ttl for record in self._async_service_records(new_info)}
+            withdrawn = {record for record in withdrawn if kept.get(record) != record.ttl}
         if old_info.server_key is not None:
             for other in self.registry.async_get_infos_server(old_info.server_key):
                 if other is not new_info:
